@@ -587,6 +587,71 @@ theorem cpRound_ok (H : FHash → Hdr → Hdr) (interval : Nat) (s : St) (cps : 
             initial := cur, cache := [] } ⟨hi, Grows.refl _, rfl⟩
         exact ⟨this.inv, this.gr⟩
 
+theorem inv_applyMid (H : FHash → Hdr → Hdr) (s : St) (h : Nat) (ids : List Blk) (hi : Inv H s) :
+    Inv H (applyMid true s h ids) := by
+  have a := (inv_rollbackLoop H h s.blocks.length s hi (by omega)).1
+  exact ⟨a.len, a.pre.trans (List.prefix_append _ _), a.ne, a.chain⟩
+
+theorem applyMid_fstore_prefix (ff : Bool) (s : St) (h : Nat) (ids : List Blk) :
+    (applyMid ff s h ids).fstore <+: s.fstore :=
+  rollbackLoop_fstore_prefix ff h _ s
+
+/-- shape of `tipRoundMid`'s result: the old state, the state after the
+reorganisation with more bans, or that followed by one `writeMsg` -/
+theorem tipRoundMid_shape (H : FHash → Hdr → Hdr) (ff : Bool) (s : St) (net : Net) (h : Nat) (ids : List Blk) :
+    (tipRoundMid H ff s net h ids).1 = s ∨
+    ∃ s2 : St, s2.fstore = (applyMid ff s h ids).fstore ∧ s2.fblk = (applyMid ff s h ids).fblk ∧
+      s2.blocks = (applyMid ff s h ids).blocks ∧
+      ((tipRoundMid H ff s net h ids).1 = s2 ∨
+       ∃ prev stop hashes, (tipRoundMid H ff s net h ids).1 = (writeMsg H s2 prev stop hashes).1) := by
+  unfold tipRoundMid
+  cases s.fstore.getLast? with
+  | none => exact Or.inl rfl
+  | some tip =>
+    by_cases h1 : s.blocks.length - 1 < s.fstore.length - 1
+    · simp only [h1, ↓reduceIte, true_or]
+    · simp only [h1, ↓reduceIte]
+      by_cases h2 : s.blocks.length - 1 = s.fstore.length - 1
+      · simp only [h2, ↓reduceIte, true_or]
+      · simp only [h2, ↓reduceIte]
+        right
+        generalize hw : (List.filter (fun pm => pm.2.prev != tip)
+          (gather (applyMid ff s h ids) net (batchLen s))).map (·.1) = wrong
+        generalize hh : List.filter (fun pm => pm.2.prev == tip)
+          (gather (applyMid ff s h ids) net (batchLen s)) = hs1
+        by_cases h3 : hs1.isEmpty = true
+        · simp only [h3, ↓reduceIte]
+          exact ⟨ban (applyMid ff s h ids) wrong reasonHeader, rfl, rfl, rfl, Or.inl rfl⟩
+        · simp only [h3, Bool.false_eq_true, ↓reduceIte]
+          have hf := idxLoop_frame net s.fstore.length (List.range (batchLen s))
+            (ban (applyMid ff s h ids) wrong reasonHeader) hs1
+          generalize idxLoop net s.fstore.length (List.range (batchLen s))
+            (ban (applyMid ff s h ids) wrong reasonHeader) hs1 = r at hf
+          obtain ⟨s2, e⟩ := r
+          cases e with
+          | error e => exact ⟨s2, hf.1, hf.2.1, hf.2.2, Or.inl rfl⟩
+          | ok hs2 =>
+            refine ⟨s2, hf.1, hf.2.1, hf.2.2, ?_⟩
+            simp only
+            cases hs2[net.pick % hs2.length]? with
+            | none => exact Or.inl rfl
+            | some pm =>
+              simp only
+              cases s.blocks[stopHeight s]? with
+              | none => exact Or.inl rfl
+              | some stopB =>
+                simp only
+                exact Or.inr ⟨pm.2.prev, stopB, pm.2.hashes, wToT_fst _⟩
+
+theorem inv_tipRoundMid (H : FHash → Hdr → Hdr) (s : St) (net : Net) (h : Nat) (ids : List Blk) (hi : Inv H s) :
+    Inv H (tipRoundMid H true s net h ids).1 := by
+  rcases tipRoundMid_shape H true s net h ids with e | ⟨s2, a, b, c, e⟩
+  · rw [e]; exact hi
+  · have hi2 : Inv H s2 := inv_of_eq H _ s2 a b c (inv_applyMid H s h ids hi)
+    rcases e with e | ⟨prev, stop, hashes, e⟩
+    · rw [e]; exact hi2
+    · rw [e]; exact inv_writeMsg H s2 prev stop hashes hi2
+
 theorem inv_step (H : FHash → Hdr → Hdr) (s : St) (op : Op) (hi : Inv H s) : Inv H (step H true s op).1 := by
   cases op with
   | ext ids =>
@@ -594,6 +659,7 @@ theorem inv_step (H : FHash → Hdr → Hdr) (s : St) (op : Op) (hi : Inv H s) :
   | rb h => exact (inv_rollbackLoop H h s.blocks.length s hi (by omega)).1
   | wr prev stop hashes => exact inv_writeMsg H s prev stop hashes hi
   | tip net => exact inv_tipRound H s net hi
+  | tipMid net h ids => exact inv_tipRoundMid H s net h ids hi
   | resolve interval hard net cp =>
     obtain ⟨a, b, c⟩ := resolveConflict_frame interval hard s net cp
     exact inv_of_eq H s _ a b c hi
